@@ -8,6 +8,8 @@ import (
 	"gverif/core"
 	"gverif/engine/args"
 	"gverif/engine/config"
+	"gverif/engine/okflow"
+	"gverif/engine/overlap"
 	"gverif/engine/stride"
 	"gverif/engine/twin"
 )
@@ -116,7 +118,7 @@ func init() {
 
 func lapackProp(self, other, what string) *property {
 	return &property{
-		explanation: "Decides structural necessary conditions of " + self + " on the lapack/gonum routines anchored by it (and shared auxiliaries), for every path and both workspace modes: ARGS.query — with lwork == -1 the only stores are to work[0] and the only calls are queries/scalar helpers ('a workspace query touches nothing else'); ARGS.order/.lencheck/.complete — arguments are validated before any operand write, every slice use is preceded by a branch on its length, every int/flag/slice parameter is validated; STRIDE — no operand is addressed with another operand's leading dimension, so results cannot depend on which matrix's ld was used. " + what,
+		explanation: "Decides structural necessary conditions of " + self + " on the lapack/gonum routines anchored by it (and shared auxiliaries), for every path and both workspace modes: ARGS.query — with lwork == -1 the only stores are to work[0] and the only calls are queries/scalar helpers ('a workspace query touches nothing else'); OKFLOW.use/.report — the ok/unconverged status of every callee (a singular pivot from Dgetrf/Dpotrf/Dtrtrs/...) reaches a branch, field or return, and no driver returns success on the path where a callee failed; ARGS.order/.lencheck/.complete — arguments are validated before any operand write, every slice use is preceded by a branch on its length, every int/flag/slice parameter is validated; STRIDE — no operand is addressed with another operand's leading dimension, so results cannot depend on which matrix's ld was used. " + what,
 		assumptions: commonAssumptions,
 		run: func(tier string, res *core.Result) {
 			sc := lapackScope(res, self, other)
@@ -130,6 +132,9 @@ func lapackProp(self, other, what string) *property {
 			a.Floor("argument_checks", 350)
 			a.Floor("query_mode_effects", 10)
 			res.Merge(a)
+			ok := okflow.Run(def, core.Scope{Patterns: []string{"./lapack/gonum"}, Files: sc.Files})
+			ok.Floor("status_call_sites", 20)
+			res.Merge(ok)
 		},
 	}
 }
@@ -212,6 +217,46 @@ func init() {
 	}
 }
 
+func init() {
+	properties["C06"] = &property{
+		explanation: "Decides the 'reported through the ok/error result rather than a silently wrong answer' clause of C06 for every call site and return of mat and lapack64: OKFLOW.use — the ok/error/unconverged result of every non-query call to a LAPACK routine or to a mat factorization/solver reaches a branch, a field, a return or another call (def-use reachability on the CFG; explicit advisory discards are a frozen table); OKFLOW.report — no function returns a constant success on the path where a callee's status was false; OKFLOW.cond — all error-returning Solve*/Inverse* methods can return Condition, every finite Condition(x) is returned exactly under x > ConditionTolerance (the one tolerance object), Condition(+Inf) only under a failed status, and receivers that store a cond estimate report it. Does NOT decide reconstruction identities, update formulas or cross-factorization consistency.",
+		assumptions: commonAssumptions,
+		run: func(tier string, res *core.Result) {
+			r := okflow.Run(def, core.Pkgs("./mat", "./lapack/lapack64", "./lapack/gonum"))
+			r.Floor("status_call_sites", 120)
+			r.Floor("solver_methods", 18)
+			r.Floor("condition_returns", 25)
+			r.Floor("status_propagation_sites", 40)
+			res.Merge(r)
+			if tier == "thorough" {
+				// the same rules under the configurations the suite never builds
+				for _, c := range []core.Config{{Tags: "safe"}, {Tags: "noasm bounds"}, {GOARCH: "386"}} {
+					res.Merge(okflow.Run(c, core.Pkgs("./mat", "./lapack/lapack64", "./lapack/gonum")))
+				}
+			}
+		},
+	}
+}
+
+func init() {
+	properties["C05"] = &property{
+		explanation: "Decides the 'partial overlap panics instead of returning' mechanism of C05 for every exported pointer-receiver method of the overlap-aware mat types (Dense, VecDense, SymDense, TriDense, CDense and the band/diag/tridiag types; ...To(dst) methods use dst as destination): OVERLAP.guard — a forward must-analysis over each method's CFG proves that at every kernel write of the destination (blas64/lapack64/asm call, copy or Data store) every operand whose raw storage is read by that same statement has, on every path, passed a checkOverlap*/isolatedWorkspace guard, an identity test (recv == operand edge), the isolated-workspace edge (restore != nil), or delegation to a method that guards it; a failed type assertion makes the guard vacuous (no storage to compare). OVERLAP.iso — every isolatedWorkspace restore closure is deferred or called. Copy/Clone methods (memmove semantics) are out of scope. Does NOT decide correctness of the overlap predicate's arithmetic (rectanglesOverlap, offset), Dense.Copy's direction choice, generic At/set loops over operands of unknown type, nor that operands are never written.",
+		assumptions: commonAssumptions,
+		run: func(tier string, res *core.Result) {
+			r := overlap.Run(def)
+			r.Floor("methods_with_operands_and_writes", 35)
+			r.Floor("operand_write_obligations", 45)
+			r.Floor("isolated_workspace_sites", 8)
+			res.Merge(r)
+			if tier == "thorough" {
+				for _, c := range []core.Config{{Tags: "safe"}, {Tags: "bounds"}, {GOARCH: "386"}} {
+					res.Merge(overlap.Run(c))
+				}
+			}
+		},
+	}
+}
+
 func dump(argv []string) {
 	if len(argv) == 0 {
 		return
@@ -231,6 +276,10 @@ func dump(argv []string) {
 			pk = []string{"./..."}
 		}
 		res = config.Run(config.Matrix(tier), pk)
+	case "okflow":
+		res = okflow.Run(def, core.Pkgs(argv[1:]...))
+	case "overlap":
+		res = overlap.Run(def)
 	case "twin":
 		res = twin.Run(twin.Which{Generated: true, Bounds: true, ReuseAs: true, R3: true})
 	case "args":
